@@ -29,8 +29,9 @@ type Array []Val
 type Tuple []Val
 
 type Iface struct {
-	t types.Type
-	v Val
+	t   types.Type
+	v   Val
+	box int64 // identity of the data word for values that are not pointer-shaped (0: the value itself / shared static)
 }
 
 type Closure struct {
@@ -205,12 +206,12 @@ func canon(u uint64, w int, signed bool) int64 {
 // ---- zero values ----
 
 func zero(t types.Type) Val {
-	switch namedPath(t) {
-	case "math/big.Int":
+	switch bigKind(t) {
+	case 1:
 		return &BigInt{c: new(big.Int)}
-	case "math/big.Rat":
+	case 2:
 		return &BigRat{num: BigInt{c: new(big.Int)}, den: BigInt{c: big.NewInt(1)}}
-	case "math/big.Float":
+	case 3:
 		return &BigFloat{f: new(big.Float)}
 	}
 	switch t := t.(type) {
@@ -295,25 +296,8 @@ func copyVal(v Val) Val {
 			n[i] = copyVal(e)
 		}
 		return n
-	case *BigInt:
-		c := *v
-		if c.c != nil {
-			c.c = new(big.Int).Set(c.c)
-		}
-		return &c
-	case *BigRat:
-		c := *v
-		if c.num.c != nil {
-			c.num.c = new(big.Int).Set(c.num.c)
-		}
-		if c.den.c != nil {
-			c.den.c = new(big.Int).Set(c.den.c)
-		}
-		return &c
-	case *BigFloat:
-		return &BigFloat{f: new(big.Float).Copy(v.f)}
 	}
-	return v
+	return v // *BigInt, *BigRat, *BigFloat are immutable objects
 }
 
 func load(addr *Val) Val {
